@@ -275,6 +275,9 @@ def run(ctx):  # noqa: C901
     okl = ("call", "builtins.range", (("+", (("c", 1), ("n", "i"))), ("n", "num_bases")), ()) in loops
     ctx.ob("R-ENUM", mub, "every pair of distinct bases compared", okl, "j in range(i + 1, num_bases)" if okl else "basis-pair loop changed")
 
+    # ---- total positivity: every j x j minor, all j, all row sets x all column sets ----------------------------------------
+    _totally_positive(ctx)
+
     # ---- Gram matrix <-> vectors: one inner-product convention on both sides ----------------------------------------
     _gram_round_trip(ctx)
 
@@ -535,3 +538,75 @@ def _gram_round_trip(ctx):
         ctx.ob("R-KIND", fg, "spectral fallback diagonalises the Hermitian Gram matrix with eigh (orthonormal eigenvectors)", okh,
                k if okh else f"`{unparse(eigs[0])}`: for a repeated eigenvalue eig's eigenvectors are not orthonormal, so sum_k d_k v_k v_k^+ != G "
                "(rank-2 projector in dimension 4: round-trip error 0.34)", eigs[0])
+
+
+def _totally_positive(ctx):
+    m = ctx.model
+    f = F(m, "is_totally_positive")
+    N = Normalizer(m, f, inline=False)
+    Ni = Normalizer(m, f, inline=True)
+    R = lambda *a: ("call", "builtins.range", tuple(a), ())  # noqa: E731
+    # default sizes 1 .. min(dims)
+    dflt = [n for n in walk_no_nested(f.node) if isinstance(n, ast.Assign) and isinstance(n.targets[0], ast.Name) and n.targets[0].id == "sub_sizes"]
+    okd = False
+    if dflt:
+        t = Ni(dflt[0].value)
+        okd = t[0] == "call" and t[1] == "builtins.range" and len(t[2]) == 2 and t[2][0] == ("c", 1) and t[2][1][0] == "+" and ("c", 1) in t[2][1][1] and "builtins.min" in repr(t[2][1])
+    ctx.ob("R-ENUM", f, "default minor sizes are 1 .. min(rows, columns)", okd, "range(1, min(dims) + 1)" if okd else "the default range of minor sizes changed", dflt[0] if dflt else None)
+    # index sets
+    sets = {}
+    for n in walk_no_nested(f.node):
+        if isinstance(n, ast.Assign) and isinstance(n.targets[0], ast.Name) and "combinations" in unparse(n.value):
+            sets[n.targets[0].id] = n
+    def comb_of(t):
+        """-> axis index k if t is (list of) combinations(range(dims[k]), j)"""
+        while t[0] == "call" and t[1] in ("builtins.list", "builtins.tuple") and t[2]:
+            t = t[2][0]
+        if t[0] == "call" and t[1] == "itertools.combinations" and len(t[2]) == 2 and t[2][0][0] == "call" and t[2][0][1] == "builtins.range" and len(t[2][0][2]) == 1:
+            a = t[2][0][2][0]
+            if a[0] == "sub" and a[1] == ("n", "dims") and a[2][0] == "c" and t[2][1] == ("n", "j"):
+                return a[2][1]
+        return None
+    det = [n for n in walk_no_nested(f.node) if isinstance(n, ast.Call) and m.resolve_call(f, n).key == "numpy.linalg.det"]
+    if not det:
+        ctx.ob("R-ENUM", f, "minors range over all row sets x all column sets of size j", None, "no determinant found", required=False)
+        return
+    loops = [lp for lp in walk_no_nested(f.node) if isinstance(lp, ast.For) and any(x is det[0] for x in ast.walk(lp))]
+    roles = []
+    for lp in loops:
+        it = lp.iter
+        if isinstance(it, ast.Name) and it.id in sets:
+            v = sets[it.id].value
+            cands = [v.body, v.orelse] if isinstance(v, ast.IfExp) else [v]
+            axes = set()
+            for c_ in cands:
+                if isinstance(c_, ast.Name) and c_.id in sets:
+                    c_ = sets[c_.id].value
+                k = comb_of(N(c_))
+                axes.add(k)
+            # a conditional that shares one list for both axes is fine only under dims[0] == dims[1]
+            roles.append((it.id, axes, isinstance(v, ast.IfExp)))
+    idx = det[0].args[0] if det[0].args else None
+    rows_first = None
+    if isinstance(idx, ast.Subscript) and isinstance(idx.slice, ast.Call) and len(idx.slice.args) == 2:
+        a0, a1 = idx.slice.args
+        tr = {lp.target.id: lp.iter.id for lp in loops if isinstance(lp.target, ast.Name) and isinstance(lp.iter, ast.Name)}
+        if isinstance(a0, ast.Name) and isinstance(a1, ast.Name) and a0.id in tr and a1.id in tr:
+            ra = next((r for r in roles if r[0] == tr[a0.id]), None)
+            ca = next((r for r in roles if r[0] == tr[a1.id]), None)
+            rows_first = (ra, ca)
+    ok = None
+    why = "index sets of the minors not recognised"
+    if rows_first and rows_first[0] and rows_first[1]:
+        ra, ca = rows_first
+        ok = 0 in ra[1] and ra[1] <= {0} and 1 in ca[1] and ca[1] <= {0, 1} and None not in ra[1] | ca[1]
+        why = "rows from combinations(range(dims[0]), j), columns from combinations(range(dims[1]), j)" if ok else \
+            f"row sets come from axes {sorted(x for x in ra[1] if x is not None)}, column sets from axes {sorted(x for x in ca[1] if x is not None)}: some minors use the wrong index range"
+    ctx.ob("R-ENUM", f, "minors range over all row sets x all column sets of size j", ok, why, det[0], required=ok is not None)
+    # verdict: a minor below tol (or not real) -> False
+    tests = [n for n in walk_no_nested(f.node) if isinstance(n, ast.If) and any(isinstance(x, ast.Name) and x.id == "d" for x in ast.walk(n.test))]
+    okt = False
+    if tests:
+        t = N(tests[0].test)
+        okt = "('cmp', '<', ('n', 'd'), ('n', 'tol'))" in repr(t) and isinstance(tests[0].body[0], ast.Return) and isinstance(tests[0].body[0].value, ast.Constant) and tests[0].body[0].value.value is False
+    ctx.ob("R-PRED", f, "a minor below the tolerance decides `not totally positive`", okt, "d < tol -> False" if okt else "the minor test changed", tests[0] if tests else None)
